@@ -638,6 +638,12 @@ func runHistory(c *lib.Ctx, id int, h history) {
 		st := h.Steps[hung]
 		if fr != "" {
 			c.Violation("C08/load-blocked-after-failed-attempt/"+fr, fmt.Sprintf("step %d (%s %s) never returned: goroutine parked on a lock in %s after earlier failed attempts", hung, st.Op, st.Kind, fr), wit(map[string]interface{}{"stderr": res.StderrPath}))
+		} else if dump, _ := os.ReadFile(res.StderrPath); st.Op == "sigusr1" && hung > 0 && bytes.Contains(dump, []byte("STEP-WATCHDOG")) && !bytes.Contains(dump, []byte("casket.trapSignalsPosix.func1")) {
+			// not a matter of time: the goroutine that handles SIGUSR1 (started by
+			// TrapSignals at the beginning of the history and meant to live as long
+			// as the process) is not among the goroutines of the dump any more, so
+			// no reload by signal can ever take effect again
+			c.Violation("C08/signal-handler-gone-after-failed-load", fmt.Sprintf("step %d (%s %s) never took effect: after earlier failed attempts the process has no goroutine handling SIGUSR1 any more (casket.trapSignalsPosix.func1 is missing from its goroutine dump)", hung, st.Op, st.Kind), wit(map[string]interface{}{"stderr": res.StderrPath}))
 		} else {
 			c.Inconclusive(fmt.Sprintf("history %d step %d did not return within the step watchdog and no goroutine is parked in a casket lock (%s)", id, hung, res.StderrPath))
 		}
